@@ -51,7 +51,9 @@ type tap struct {
 	Bytes int64
 	// consumption when the party's first message left (set by the network hook); -1 = no message sent
 	atFirstSend int64
-	failed      int64 // number of Read calls answered with an error
+	// marks: Read-call count at every moment a message of this party left (round boundaries), this session
+	marks  []int64
+	failed int64 // number of Read calls answered with an error
 	session     int   // how many protocol sessions this reader has already served
 }
 
